@@ -156,6 +156,15 @@ pub fn run(ctx: &mut RunCtx) -> Result<(), Violation> {
     let mut w = ctx.stream("workload");
     let mut s = ctx.stream("sched");
     let class = if ctx.thorough { pick_class(&mut w, [10, 4, 2, 0]) } else { pick_class(&mut w, [12, 2, 0, 0]) };
+    // a steady share of runs takes the large-domain code paths (domains of 2^10 and 2^11 rows)
+    let big = if ctx.thorough { ctx.run % 12 } else { ctx.run % 48 };
+    if big == 5 {
+        crate::scenario::set_target_override(Some(1024 - w.usize(9)));
+        ctx.st.probe("domain_2^10");
+    } else if big == 11 && (ctx.thorough || ctx.run % 96 == 11) {
+        crate::scenario::set_target_override(Some(2048 - w.usize(9)));
+        ctx.st.probe("domain_2^11");
+    }
     let sc = gen_scenario(ctx, &mut w, &ScenCfg { class, heavy: false, raw: true, exact_target: true, max_ops: 20 });
     let sig = scenario_sig(&sc);
     let pp = deploy::pp_with_degree(sc.degree);
